@@ -1723,15 +1723,19 @@ class SpaceUpdater(SharedSpaceOperations):
             mro = self._graph.get_mro(desc)
 
             # Check name conflict between spaces, cells, refs
-            members = {}
-            for attr in ["spaces", "cells", "refs"]:
+            # Child spaces are not inherited from base spaces
+            members = {
+                "spaces": set(self._graph.to_space(desc).named_spaces)}
+            for attr in ["cells", "own_refs"]:
                 namechain = []
                 for sname in mro:
                     space = self._graph.to_space(sname)
                     namechain.append(set(getattr(space, attr).keys()))
                 members[attr] = set().union(*namechain)
 
-            conflict = set().intersection(*[n for n in members.values()])
+            conflict = set().union(*[
+                m1 & m2 for m1, m2 in itertools.combinations(
+                    members.values(), 2)])
             if conflict:
                 raise NameError("name conflict: %s" % conflict)
 
